@@ -242,6 +242,9 @@ structure Env where
   router : List (Pid × Wid) := []
   nextPid : Pid := 0
   nWorkers : Nat := 1
+  /-- `persistent_processes`: processes started through `start_process` (the REPL's process, the main
+  process of `quiv run`): a successful result of such a process means "sleeping until resumed" -/
+  persistent : List Pid := []
   backend : Backend := {}
   out : List Cmd := []
   faults : List Fault := []
@@ -334,6 +337,7 @@ def startProcess (s : Env) : Env :=
   let w := pid % s.nWorkers
   { s with nextPid := pid + 1
            router := (pid, w) :: s.router.filter (fun e => e.1 ≠ pid)
+           persistent := pid :: s.persistent
            out := s.out ++ [.startProcess w pid] }
 
 def closeAll (b : Backend) : List Rid → Backend
@@ -351,13 +355,38 @@ def cleanupProcessResources (s : Env) (p : Pid) : Env :=
   let rs := ownedBy s.owner p
   { s with backend := closeAll s.backend rs, owner := eraseAll s.owner rs }
 
-/-- The resource part of `handle_process_results(awaiter, results)`:
-`for (pid, result) in &results { if result.is_some() { cleanup_process_resources(pid) } }`.
-The Bool is `result.is_some()`. -/
-def handleProcessResults (s : Env) : List (Pid × Bool) → Env
+/-- One entry of a `ProcessResultsMap`: `None` / `Some(Ok(_))` / `Some(Err(_))`. -/
+inductive Rep where
+  | pending
+  | ok
+  | failed
+  deriving DecidableEq, Repr, Inhabited
+
+/-- Does `handle_process_results` clean up for this entry? (since the repair 200f50e)
+`let sleeping = persistent_processes.contains(pid) && matches!(result, Some(Ok(_)));`
+`if result.is_some() && !sleeping { cleanup_process_resources(pid) }` -/
+def cleans (persistent : List Pid) (x : Pid × Rep) : Bool :=
+  let sleeping := persistent.contains x.1 && x.2 == .ok
+  x.2 != .pending && !sleeping
+
+/-- The rule BEFORE the repair (finding F14/F38): `if result.is_some()`. -/
+def cleansOld (x : Pid × Rep) : Bool := x.2 != .pending
+
+/-- The cleanup loop over the entries already classified (Bool = "clean this one up"). -/
+def handleCleanups (s : Env) : List (Pid × Bool) → Env
   | [] => s
-  | (p, true) :: rest => handleProcessResults (cleanupProcessResources s p) rest
-  | (_, false) :: rest => handleProcessResults s rest
+  | (p, true) :: rest => handleCleanups (cleanupProcessResources s p) rest
+  | (_, false) :: rest => handleCleanups s rest
+
+/-- The resource part of `handle_process_results(awaiter, results)`: for every entry, in order,
+decide `cleans` and clean up. (`persistent_processes` is not touched by a cleanup, so classifying
+all entries first and then looping is the same computation as the Rust loop.) -/
+def handleProcessResults (s : Env) (rs : List (Pid × Rep)) : Env :=
+  handleCleanups s (rs.map fun x => (x.1, cleans s.persistent x))
+
+/-- The same with the pre-repair rule (kept for the F14 witness). -/
+def handleProcessResultsOld (s : Env) (rs : List (Pid × Rep)) : Env :=
+  handleCleanups s (rs.map fun x => (x.1, cleansOld x))
 
 /-! ## Histories -/
 
@@ -371,25 +400,26 @@ inductive Event where
   | send (sender target : Pid) (msg : Val)
   | spawn (caller : Pid) (captures : List Val) (argument : Val)
   | terminate (p : Pid)
-  | results (awaiter : Pid) (rs : List (Pid × Bool))
+  | results (awaiter : Pid) (rs : List (Pid × Rep))
   deriving Repr, Inhabited
 
 /-- The scenario vocabulary of the property statement, as abbreviations. -/
 def Event.open (p : Pid) : Event := .request p { kind := .fileOpen } true
 def Event.use (p : Pid) (r : Rid) : Event := .request p { kind := .fileRead, rid := r } true
 def Event.close (p : Pid) (r : Rid) : Event := .request p { kind := .fileClose, rid := r } true
-def Event.awaitReport (awaiter p : Pid) : Event := .results awaiter [(p, true)]
+def Event.awaitReport (awaiter p : Pid) : Event := .results awaiter [(p, .ok)]
+def Event.awaitFailure (awaiter p : Pid) : Event := .results awaiter [(p, .failed)]
 
 /-- Environment + ghost facts about the workers. -/
 structure Sys where
   env : Env := {}
-  /-- ghost: processes whose body has finished (result is `Some`) -/
+  /-- ghost: processes that are dead: body finished (non-persistent) or failed (persistent) -/
   terminated : List Pid := []
   /-- ghost: processes for which some `ProcessResults` carried `Some(result)` -/
   reported : List Pid := []
   deriving Repr, Inhabited
 
-def reportedOf (rs : List (Pid × Bool)) : List Pid := (rs.filter (·.2)).map (·.1)
+def reportedOf (rs : List (Pid × Rep)) : List Pid := (rs.filter (·.2 != .pending)).map (·.1)
 
 def step (s : Sys) : Event → Sys
   | .start => { s with env := startProcess s.env }
@@ -421,13 +451,17 @@ def handlesExist (s : Sys) : Event → Bool
   | _ => true
 
 /-- A terminated process emits nothing; a worker reports `Some(result)` only for a process whose
-body has finished (`query_and_await` / `check_completed_processes`). -/
+body has finished, or — `query_and_await` treats `Sleeping` like `Completed` — `Some(Ok(_))` for a
+persistent process that sleeps between two resumptions. For a persistent process "terminated" means
+failed (it can never be resumed); a sleeping one is alive. -/
 def livenessOk (s : Sys) : Event → Bool
   | .request p _ _ => !s.terminated.contains p
   | .send p _ _ => !s.terminated.contains p
   | .spawn p _ _ => !s.terminated.contains p
   | .terminate p => !s.terminated.contains p
-  | .results _ rs => (reportedOf rs).all (s.terminated.contains ·)
+  | .results _ rs =>
+    rs.all fun x => x.2 == .pending || s.terminated.contains x.1 ||
+      (s.env.persistent.contains x.1 && x.2 == .ok)
   | _ => true
 
 def eventOk (s : Sys) (ev : Event) : Bool := handlesExist s ev && livenessOk s ev
